@@ -31,7 +31,14 @@ META_PART = (
     "exactly four finite bounds with min < max on both axes - refuted before the repair of Servo.__init__ in the project); the "
     "extracted model is run against the real class on exhaustive op pairs over a boundary alphabet from 11 seed states of 3 "
     "calibrations, a constructor table and seeded random histories, comparing outcome, return value, every attribute and "
-    "the level events per op."
+    "the level events per op. BINARY64 (Host/ServoFloat.v: the five rounded operations of each map, fl53): the bound clauses are exact "
+    "inequalities - C19_servo_binary64_pulse_bound_refuted / _angle_bound_refuted (witnesses: an in-range write leaves the pulse / angle one ulp "
+    "above its bound for unlucky bounds, finding F-C19-servo-bound-ulp), C19_servo_binary64_bounds_reachable_partial / _step_partial / "
+    "_map_within_bounds_partial (guard servo_top_ok = the image of the top of each range is not above the bound: angle and pulse stay "
+    "within their bounds EXACTLY after every history), C19_binary64_rounding_monotone / _idempotent, C19_servo_binary64_guard_is_executable, "
+    "C19_servo_binary64_write_roundtrip / _write_us_roundtrip (the commanded coordinate is stored as given), _failed_call_atomic, "
+    "_config_constant; the extracted binary64 model is compared BIT FOR BIT (no tolerance) with the real class on the pairs / random / "
+    "random-decimal streams and on one-decimal calibrations inside the guard written at both ends, one ulp inside them and at decimal interior points."
 )
 
 H = Fr(1, 2)
@@ -67,11 +74,14 @@ def oracle(ctx, st, case, r, safety_only=False):
         if a is None or p is None:
             ctx.fail(f"{at}: read()/read_us() is not a finite float", label, "floats", get, key="servo-nonfloat")
             return False
-        if not (S.le(mina, a, sa) and S.le(a, maxa, sa)):
-            ctx.fail(f"{at}: angle outside its configured bounds", label, f"{float(mina)} <= angle <= {float(maxa)}", float(a), key="servo-angle-bounds")
+        # "angle and pulse stay within their bounds" are EXACT inequalities on the binary64 values the object holds
+        # (no tolerance; one ulp above max is outside).  Generated calibrations are inside the guard top_exact
+        # (finding F-C19-servo-bound-ulp covers the others)
+        if not (mina <= a <= maxa):
+            ctx.fail(f"{at}: angle outside its configured bounds", label, f"{float(mina)!r} <= angle <= {float(maxa)!r} (exact)", repr(float(a)), key="servo-angle-bounds")
             return False
-        if not (S.le(minp, p, sp) and S.le(p, maxp, sp)):
-            ctx.fail(f"{at}: pulse outside its configured bounds", label, f"{float(minp)} <= pulse <= {float(maxp)}", float(p), key="servo-pulse-bounds")
+        if not (minp <= p <= maxp):
+            ctx.fail(f"{at}: pulse outside its configured bounds", label, f"{float(minp)!r} <= pulse <= {float(maxp)!r} (exact)", repr(float(p)), key="servo-pulse-bounds")
             return False
         want_p = minp + (a - mina) / (maxa - mina) * (maxp - minp)
         want_a = mina + (p - minp) / (maxp - minp) * (maxa - mina)
@@ -103,7 +113,7 @@ def oracle(ctx, st, case, r, safety_only=False):
             lo, hi, g = (mina, maxa, "read") if op[0] == "write" else (minp, maxp, "read_us")
             if v is not None and lo <= v <= hi:
                 got = S.fval(rs["get"][g])
-                if rs["res"] != "ok" or not S.close(got, v):
+                if rs["res"] != "ok" or got != v:          # the commanded coordinate is stored as given: exact
                     ctx.fail(f"{at}: {g}() after {op[0]}({S.show(op[1])}) with an in-range argument does not return it", label,
                              float(v), {"outcome": [rs["res"], rs["ret"]], g: float(got)}, key="servo-roundtrip")
                     return
@@ -190,6 +200,62 @@ DECIMAL_CALIBS = [(Fr(0.1), Fr(179.9), Fr(544.5), Fr(2400.3)), (Fr(-33.3), Fr(66
                   (Fr(0), Fr(180), Fr(0.7), Fr(0.9))]
 
 
+def top_exact(lo, hi):
+    """executable guard of finding F-C19-servo-bound-ulp (Host/ServoFloat.v top_ok, the guard of
+    C19_servo_binary64_bounds_reachable_partial): in binary64, lo + (hi - lo) <= hi - the image of the top of the range is
+    not above the bound (it is the bound itself, or an ulp below it)"""
+    lo, hi = float(lo), float(hi)
+    return lo + (hi - lo) <= hi
+
+
+def in_guard(bounds):
+    mina, maxa, minp, maxp = bounds
+    return top_exact(mina, maxa) and top_exact(minp, maxp)
+
+
+DECIMAL_CALIBS = [c for c in DECIMAL_CALIBS if in_guard(c)]
+
+# streams whose cases are ALSO run through the binary64 model (Host/ServoFloat.v: sstep_fl) and compared EXACTLY
+FLOAT_STREAMS = {"float-bounds", "random-decimal", "random", "pairs"}
+
+
+def float_bound_cases(ctx):
+    """Calibrations with one-decimal (non-dyadic) bounds inside the guard; writes at both ends of each axis, one ulp inside
+    the ends, at decimal interior points: where the five rounded operations of each map matter for the exact bound clauses."""
+    import math
+    rng = ctx.rng
+    thorough = ctx.tier == "thorough"
+    out, n_out = [], 0
+    want = 1200 if thorough else 150
+    tries = 0
+    while len(out) < want * 2 and tries < 100000:
+        tries += 1
+        mina = round(rng.uniform(-180, 180), rng.choice([0, 1, 1, 2]))
+        maxa = round(mina + rng.choice([0.1, 1, 45.5, 90, 180, 270.3, rng.uniform(0.5, 360)]), rng.choice([0, 1, 1, 2]))
+        minp = round(rng.uniform(0, 1500), rng.choice([0, 1, 1, 2]))
+        maxp = round(minp + rng.choice([0.2, 10, 1000, 1856, 1855.9, rng.uniform(1, 2500)]), rng.choice([0, 1, 1, 2]))
+        if not (mina < maxa and minp < maxp):
+            continue
+        b = (Fr(mina), Fr(maxa), Fr(minp), Fr(maxp))
+        if not in_guard(b):
+            n_out += 1                   # outside the guard: covered by the listed finding, never generated
+            continue
+        ctor = [ABSENT, b[0], b[1], b[2], b[3]]
+        ends = [("write", b[1]), ("write", b[0]), ("write_us", b[3]), ("write_us", b[2]),
+                ("write", Fr(math.nextafter(maxa, mina))), ("write_us", Fr(math.nextafter(maxp, minp))),
+                ("write", Fr(math.nextafter(mina, maxa))), ("write_us", Fr(math.nextafter(minp, maxp)))]
+        out.append(("float-bounds", ("servo", ctor, ends + [("read",), ("read_us",)])))
+        ops = []
+        for _ in range(8):
+            if rng.random() < 0.5:
+                ops.append(("write", Fr(round(rng.uniform(mina, maxa), 1)) if rng.random() < 0.7 else Fr(rng.uniform(mina, maxa))))
+            else:
+                ops.append(("write_us", Fr(round(rng.uniform(minp, maxp), 1)) if rng.random() < 0.7 else Fr(rng.uniform(minp, maxp))))
+        out.append(("float-bounds", ("servo", ctor, ops)))
+    ctx.coverage.setdefault("servo_calibrations_outside_the_guard_not_generated", n_out)
+    return out
+
+
 def as_float_value(q):
     """the binary64 nearest to q, as an exact Fraction"""
     return Fr(q.numerator / q.denominator)
@@ -259,6 +325,7 @@ def generate(ctx):
         for _ in range(rng.randint(40, 120)):
             ops.append(rng.choice(alphabet(cal)))
         cases.append(("random-long", ("servo", ctor, ops)))
+    cases += float_bound_cases(ctx)
     return cases
 
 
@@ -360,14 +427,27 @@ def run_unit(ctx: C.Ctx) -> dict:
         st.bump(st.streams, s)
     impl = S.run_impl("servo", cases)
     exe = ctx.exes.get(UNIT)
-    model = ctx.model([S.wire_case(c) for c in cases], unit=UNIT) if exe else [None] * len(cases)
-    n_dis = 0
-    for case, r, m in zip(cases, impl, model):
+    rational = [i for i, (s, _) in enumerate(stream_cases) if not s.startswith("float-")]
+    binary64 = [i for i, (s, _) in enumerate(stream_cases) if s in FLOAT_STREAMS]
+    model = [None] * len(cases)
+    model_fl = [None] * len(cases)
+    if exe:
+        for i, m in zip(rational, ctx.model([S.wire_case(cases[i]) for i in rational], unit=UNIT)):
+            model[i] = m
+        # the same class with the two maps in binary64 (wire case 4): compared bit for bit, no tolerance
+        for i, m in zip(binary64, ctx.model([[4] + S.wire_case(cases[i])[1:] for i in binary64], unit=UNIT)):
+            model_fl[i] = m
+    n_dis = n_dis_fl = n_exact = 0
+    for case, r, m, mf in zip(cases, impl, model, model_fl):
         S.account(st, case, r)
         oracle(ctx, st, case, r)
         if m is not None and n_dis < 25:
             if not S.compare_case(ctx, st, case, m, r):
                 n_dis += 1
+        if mf is not None and n_dis_fl < 25:
+            n_exact += len(case[2])
+            if not S.compare_case(ctx, st, case, mf, r, exact=True):
+                n_dis_fl += 1
     spec = specials_cases()
     n_spec = 0
     for case, r in zip(spec, S.run_impl("servo", spec, real_sleep=True)):
@@ -383,6 +463,7 @@ def run_unit(ctx: C.Ctx) -> dict:
     dist["specials_stream_ops_implementation_only"] = n_spec
     dist["constructor_calls_with_ieee_special_bounds_compared_with_model_and_judged_by_the_oracle"] = n_x
     dist["fixed_witnesses_replayed_first"] = n_fixed
+    dist["calls_compared_bit_for_bit_with_the_binary64_model"] = n_exact
     return {
         "unit": UNIT,
         "evaluations": st.steps,
@@ -398,17 +479,21 @@ def run_unit(ctx: C.Ctx) -> dict:
                     "50%" if ctx.tier == "thorough" else "30%")),
         "samples": samples,
         "distribution": dist,
-        "guard": ("none: no listed finding excludes anything (F-C19-servo-nonfinite-bound is repaired, kind=fixed; NaN / infinite calibration bounds are generated "
-                  "and judged like every other argument, its witness is replayed first). The streams of the finite model use ints, bools, None and dyadic floats"),
+        "guard": ("F-C19-servo-bound-ulp: generated calibrations satisfy, in binary64, min + (max - min) <= max on both axes (in_guard = Host/ServoFloat.v "
+                  "servo_top_ok, the guard of C19_servo_binary64_bounds_reachable_partial); calibrations outside it are counted "
+                  "(servo_calibrations_outside_the_guard_not_generated) and never generated - the witness of the finding is replayed on every run. "
+                  "F-C19-servo-nonfinite-bound is repaired (kind=fixed, excludes nothing, witness replayed first). Inside the guard the bound clauses and the "
+                  "write/read round trips are judged with EXACT comparisons after every call (no tolerance); only the clause 'angle and pulse correspond under "
+                  "the linear map' - two float computations of the same real quantity - is compared to 1e-9"),
         "unmodelled": [
-            "binary64 rounding: model floats are exact rationals; compared to 1e-9 relative (a one-ulp excursion of a servo bound under write_us is float rounding, tolerated)",
+            "binary64 overflow / subnormals: the binary64 model (fl53) has an unbounded exponent - it is IEEE-754 binary64 for bounds and arguments of magnitude 2^-1000 .. 2^1000, which is what is generated; the exact-rational model is still compared to 1e-9 on every stream",
             "IEEE specials (NaN, inf), -0.0, strings and ints beyond the float range as arguments of write/write_us: sent to the implementation only, oracle = invariant + atomicity of failing calls",
             "OverflowError of float() on a huge int calibration bound", "Servo.__repr__ (debug helper)", "keyword-argument calls (C08's subject); direct writes to the attributes",
         ],
         "trusted_base": [
             "harness/gen/c19_motor.py (reads the Servo constructor defaults and the public method signatures from the current source; fail-closed)",
             "harness/impl/c19_servo_impl.py + c19_sm_runner.py (drive the real class; level events recorded by wrapping Servo.write/write_us)",
-            "harness/props/c19_servo.py + harness/c19_sm.py (generators, comparison with 1e-9 float tolerance, oracle)",
+            "harness/props/c19_servo.py + harness/c19_sm.py (generators, comparison with 1e-9 float tolerance for the rational model and bit for bit for the binary64 model, oracle with exact bound clauses)",
         ],
         "assumptions": ["Python floats behave as exact rationals up to 1e-9 on the generated dyadic inputs (measured by the correspondence)",
                         "Servo objects are only driven through their public methods"],
